@@ -152,7 +152,7 @@ def run_cfg(ctx, p, cfg):
         r.require(any(e[0] == "agg" and e[2] == "Error" and any(x[0] == "call" and x[1] == "alloc::fmt::format" for x in walk(e)) for b, e in allrets), "unknown-formatter-is-error", fn=g,
                   detail="a formatted error chunk exists for unknown names")
         # PatternEncoder::encode writes chunks in order, stopping on io errors only
-        h = p.fn(ENCODE)
+        h = p.fn_loops(ENCODE)      # `chunks.iter().try_for_each(|c| c.encode(w, record))` is the loop it denotes
         ce = h.calls(CHUNK_ENCODE)
         r.require(len(ce) == 1 and h.in_loop(ce[0].block), "encode-iterates-chunks", fn=h, detail="one Chunk::encode call inside the chunk loop")
 
